@@ -259,8 +259,10 @@ static void trace_box(rng & r, std::ofstream & out, long n, long & events) {
         auto rb = typename covfie::field<BK>::view_t(fb).at(x);
         bool is_default = rb[0] == -7.5f && rb[1] == 123456.f;
         bool same_coord = true; for (std::size_t i = 0; i < N; ++i) if (g_probe.queries && g_probe.last[i] != (long double)x[i]) same_coord = false;
-        out << json({{"e", "box"}, {"type", tname<T>()}, {"rel", rel}, {"deg", deg}, {"eqlo", eqlo}, {"eqhi", eqhi}, {"eqx", eqx}, {"is_default", is_default},
+        out << json({{"e", "clampbox"}, {"type", tname<T>()}, {"rel", rel}, {"deg", deg}, {"eqlo", eqlo}, {"eqhi", eqhi}, {"eqx", eqx}}).dump() << "\n";
+        out << json({{"e", "backupbox"}, {"type", tname<T>()}, {"rel", rel}, {"deg", deg}, {"is_default", is_default},
                      {"queries", g_probe.queries}, {"queried_at_x", same_coord}}).dump() << "\n";
+        ++events;
         ++events;
     }
 }
